@@ -184,10 +184,57 @@ def _case(rng, fc=None):
         # sum(updates) steps further away, and forecasters that train per step at fit (direct /
         # dirrec / multioutput reductions, stacking) need that many more training points
         n += sum(ups)
-    return {"kind": "run", "fc": fc, "n": n, "t0": rng.choice([0, 0, 1, 3, 7, 25, 100, -6]),
-            "idx": rng.choice(["range", "int"]), "seed": rng.randint(0, 10 ** 6), "fh": fh,
-            "fh_kind": fh_kind, "fh_at": fh_at, "updates": ups,
-            "update_params": upd_params, "k": rng.choice([1, 2, 5, 13, -3, 40])}
+    c = {"kind": "run", "fc": fc, "n": n, "t0": rng.choice([0, 0, 1, 3, 7, 25, 100, -6]),
+         "idx": rng.choice(["range", "int"]), "seed": rng.randint(0, 10 ** 6), "fh": fh,
+         "fh_kind": fh_kind, "fh_at": fh_at, "updates": ups,
+         "update_params": upd_params, "k": rng.choice([1, 2, 5, 13, -3, 40])}
+    if rng.random() < 0.3:
+        _unsort(rng, c)
+    return c
+
+
+def _unsort(rng, c, how=None):
+    """the horizon is WRITTEN in another order than increasing time (`fh_given`); `fh` stays the
+    sorted set of steps, which is what the forecast must be indexed by.  Half of the time the
+    smallest step stays first and the largest last (only the interior is permuted), and then the
+    steps are often a contiguous block - e.g. [1, 3, 2, 4]"""
+    how = how or rng.choice(["any", "any", "ends", "ends-block"])
+    fh = list(c["fh"])
+    if how == "ends-block" and c["fc"]["t"] != "stack":
+        a = rng.choice([1, 1, 2])
+        fh = list(range(a, a + rng.choice([4, 4, 5, 6])))
+    if how in ("ends", "ends-block") and len(fh) >= 4:
+        mid = fh[1:-1]
+        for _ in range(8):
+            rng.shuffle(mid)
+            if mid != fh[1:-1]:
+                break
+        given = [fh[0]] + mid + [fh[-1]]
+    else:
+        given = list(fh)
+        for _ in range(8):
+            rng.shuffle(given)
+            if given != fh:
+                break
+    c["fh"] = fh
+    if given != fh:
+        c["fh_given"] = given
+    return c
+
+
+def _with_update_predict(rng, c):
+    """fit ; update* ; update_predict(y_new, cv) ; predict: the moving cutoffs of update_predict are
+    undone afterwards, the forecast is made from the cutoff before the call"""
+    wl = rng.choice([1, 2, 3])
+    if _needs_fh_at_fit(c["fc"]):
+        c["fh_kind"] = "rel"      # the splitter's horizon must be the one given to fit, as written
+        c.pop("fh_given", None)
+    # step_length <= window_length: every new point is shown to the forecaster, so the remembered
+    # series stays contiguous (a gapped series is outside the quantifier of C03; e.g.
+    # PolynomialTrendForecaster cannot be refitted on one)
+    c["up"] = {"wl": wl, "step": rng.randint(1, wl), "m": wl + c["fh"][-1] + rng.choice([1, 2, 3]),
+               "update_params": rng.random() < 0.5}
+    return c
 
 
 def gen_cases(rng, tier):
@@ -231,8 +278,42 @@ def gen_cases(rng, tier):
             if not _needs_fh_at_fit(c["fc"]):
                 c.update(updates=rng.choice([[2], [1, 2]]), update_params=True, fh_at="predict")
             cases.append(c)
+    # horizons written out of order, for every kind of forecaster: arbitrary permutations and
+    # permutations that keep the smallest step first and the largest last (contiguous blocks too)
+    kinds = ([_fix_reg(_leaf(rng, [t])) for t in LEAVES for _ in range(2 if quick else 12)]
+             + [_fc(rng, w) for w in ["ensemble", "ttf", "multiplex", "stack", "grid"]
+                for _ in range(2 if quick else 12)])
+    for i, fc in enumerate(kinds):
+        c = _case(rng, fc)
+        c.pop("fh_given", None)
+        _unsort(rng, c, how=["ends-block", "any", "ends"][i % 3])
+        cases.append(c)
+    # a repeated step is not a valid horizon: rejected where the horizon is first given
+    for _ in range(4 if quick else 30):
+        c = _case(rng, _fix_reg(_leaf(rng, ["naive", "poly", "es", "reduce"])))
+        c.pop("fh_given", None)
+        g = list(c["fh"])
+        g.insert(rng.randrange(len(g) + 1), rng.choice(g))
+        c["fh_given"] = g
+        c["fh_dup"] = True
+        cases.append(c)
+    # update_predict between fit / update and predict, for every kind of forecaster
+    kinds = ([_fix_reg(_leaf(rng, [t])) for t in LEAVES for _ in range(3 if quick else 20)]
+             + [_fc(rng, w) for w in ["ensemble", "ttf", "multiplex", "stack", "grid"]
+                for _ in range(2 if quick else 12)])
+    for fc in kinds:
+        c = _case(rng, fc)
+        if c["fc"]["t"] == "stack" or rng.random() < 0.5:
+            c.pop("fh_given", None)
+        c["updates"] = rng.choice([[], [], [2]])
+        c["update_params"] = bool(c["updates"]) and c["update_params"]
+        cases.append(_with_update_predict(rng, c))
     if not quick:
         cases += exhaustive_cases()
+    for c in cases:                 # special cases above overwrite `fh`: keep `fh_given` consistent
+        if "fh_given" in c and sorted(set(c["fh_given"])) != c["fh"]:
+            c.pop("fh_given")
+            c.pop("fh_dup", None)
     return cases
 
 
@@ -259,7 +340,7 @@ def _data(case):
     """Deterministic positive series (quarters) with trend, period-4 season and noise."""
     import random
     rng = random.Random(case["seed"])
-    total = case["n"] + sum(case["updates"])
+    total = case["n"] + sum(case["updates"]) + (case["up"]["m"] if case.get("up") else 0)
     base, slope = rng.randint(20, 60), rng.choice([0, 1, 2])
     seas = [0, 3, -2, 4]
     return [4 * (base + slope * i + seas[i % 4]) + rng.randint(-6, 6) for i in range(total)]
@@ -374,8 +455,9 @@ def _is_gapped(fh):
     return fh != list(range(1, len(fh) + 1))
 
 
-def _run_program(case, shift):
-    """fit ; update* ; predict on the series whose index is shifted by `shift`."""
+def _run_program(case, shift, reference=None):
+    """fit ; update* ; [update_predict ;] predict on the series whose index is shifted by `shift`.
+    reference = positions: instead of update_predict, tell a fresh forecaster the points it remembered."""
     import numpy as np
     import pandas as pd
     from harness.core import float_ratio
@@ -387,14 +469,19 @@ def _run_program(case, shift):
              else pd.RangeIndex(t0, t0 + total))
     y_all = pd.Series(np.array(vals, dtype=float), index=index)
     n = case["n"]
-    final_cutoff = t0 + total - 1
-    if case["fh_kind"] == "abs":
-        fh = ForecastingHorizon(np.array([final_cutoff + r for r in case["fh"]]), is_relative=False)
-    else:
-        fh = ForecastingHorizon(np.array(case["fh"]), is_relative=True)
+    up = case.get("up")
+    observed = n + sum(case["updates"])            # the data of update_predict come after these
+    final_cutoff = t0 + observed - 1
+    given = case.get("fh_given") or case["fh"]     # the horizon as written (possibly out of order)
     f = _build(case["fc"])
-    stage = "fit"
+    stage = "fit" if case["fh_at"] in ("fit", "both") else "predict"
+    seen = None
     try:
+        if case["fh_kind"] == "abs":
+            fh = ForecastingHorizon(np.array([final_cutoff + r for r in given]), is_relative=False)
+        else:
+            fh = ForecastingHorizon(np.array(given), is_relative=True)
+        stage = "fit"
         y_train = y_all.iloc[:n].copy()
         if case["fh_at"] in ("fit", "both"):
             f.fit(y_train, fh=fh)
@@ -407,11 +494,28 @@ def _run_program(case, shift):
             f.update(y_all.iloc[pos:pos + m].copy(), update_params=case["update_params"])
             pos += m
             cutoffs.append(int(f.cutoff))
+        if up and reference is None:
+            stage = "update_predict"
+            from sktime.forecasting.model_selection import SlidingWindowSplitter
+            cv = SlidingWindowSplitter(fh=np.array(case["fh"]), window_length=up["wl"],
+                                       step_length=up["step"], start_with_window=False)
+            f.update_predict(y_all.iloc[observed:].copy(), cv=cv, update_params=up["update_params"])
+            cutoffs.append(int(f.cutoff))
+            if hasattr(f, "_y"):
+                # which of the new time points the moving-cutoff loop has remembered (positions in
+                # y_all; with step_length > window_length not every point is shown to the forecaster)
+                seen = [int(t) - t0 for t in f._y.index if int(t) > final_cutoff]
+        if reference:
+            # a fresh equal forecaster brought to the same state WITHOUT moving cutoffs around: it
+            # is told the same data in one go, then its cutoff is put back
+            c0 = f.cutoff
+            f.update(y_all.iloc[reference].copy(), update_params=up["update_params"])
+            f._set_cutoff(c0)
         stage = "predict"
         p = f.predict(fh) if case["fh_at"] in ("predict", "both") else f.predict()
         return {"cutoffs": cutoffs, "index": [int(i) for i in p.index],
                 "vals": [float_ratio(v) for v in np.asarray(p.values, dtype=float)],
-                "type": type(p).__name__}
+                "type": type(p).__name__, "seen": seen}
     except (ValueError, NotImplementedError, IndexError, KeyError, TypeError, AttributeError) as e:
         return {"err": type(e).__name__, "stage": stage, "msg": str(e)[:200]}
 
@@ -420,9 +524,20 @@ def run_impl(case):
     import warnings
     warnings.simplefilter("ignore")
     out = {"a": _run_program(case, 0), "b": _run_program(case, case["k"])}
-    if _is_gapped(case["fh"]) and _fh_independent(case["fc"]) and "err" not in out["a"]:
+    # reference values: only where telling the data in one go provably gives the same state - no
+    # refit (parameters from fit, data merged), or a leaf whose refit is a function of the
+    # remembered data alone; a composite that updates its transformers / members step by step with
+    # update_params=True may legitimately end in another state than after one big update
+    one_shot_ok = case.get("up") and (not case["up"]["update_params"]
+                                      or case["fc"]["t"] in LEAVES)
+    if one_shot_ok and "err" not in out["a"] and out["a"].get("seen") is not None:
+        ref = dict(case)
+        out["r"] = _run_program(ref, 0, reference=out["a"]["seen"])
+    if _is_gapped(case["fh"]) and _fh_independent(case["fc"]) and "err" not in out["a"] \
+            and not case.get("up") and not case.get("fh_dup"):
         # the same program asked for every step up to the furthest requested one
-        out["c"] = _run_program(dict(case, fh=list(range(1, case["fh"][-1] + 1))), 0)
+        out["c"] = _run_program({k: v for k, v in dict(case, fh=list(range(1, case["fh"][-1] + 1))).items()
+                                   if k != "fh_given"}, 0)
     return out
 
 
@@ -449,6 +564,8 @@ def expected_cutoffs(case, shift=0):
         if m > 0:
             c = c + m          # the batch continues the series: its last time point
         out.append(c)
+    if case.get("up"):
+        out.append(c)          # update_predict restores the cutoff it started from
     return out
 
 
@@ -484,6 +601,14 @@ def documented_rejection(case):
 
 def _check_run(case, out, shift, tag):
     why = documented_rejection(case)
+    if case.get("fh_dup"):
+        # a horizon with a repeated step is rejected where it is first given
+        first = "fit" if case["fh_at"] in ("fit", "both") else "predict"
+        if out.get("err") == "ValueError" and out["stage"] == first:
+            return None
+        if "err" in out:
+            return "raised%s: %s at %s: %s" % (tag, out["err"], out["stage"], out["msg"][:120])
+        return "accepted-horizon-with-repeated-step%s: %s gives index %s" % (tag, case["fh_given"], out["index"])
     if "err" in out:
         if why and out["stage"] == "fit" and out["err"] == "ValueError":
             return None                 # documented rejection at fit
@@ -493,6 +618,8 @@ def _check_run(case, out, shift, tag):
         return "cutoff-after-fit%s: %s expected last training time %s" % (
             tag, out["cutoffs"][0], want_c[0])
     for i, (g, w) in enumerate(zip(out["cutoffs"][1:], want_c[1:])):
+        if g != w and i >= len(case["updates"]):
+            return "cutoff-after-update-predict%s: %s, expected the cutoff before the call %s" % (tag, g, w)
         if g != w:
             return "cutoff-after-update%s: update %d (batch of %d) gives %s expected %s" % (
                 tag, i, case["updates"][i], g, w)
@@ -500,9 +627,13 @@ def _check_run(case, out, shift, tag):
     if len(out["vals"]) != len(case["fh"]) or len(out["index"]) != len(case["fh"]):
         return "one-value-per-step%s: %d values for %d steps" % (tag, len(out["vals"]),
                                                                  len(case["fh"]))
+    if out["index"] != want_i and sorted(out["index"]) == want_i:
+        return ("increasing-time-order%s: index %s is in the order the horizon was written (%s), "
+                "not in increasing time order" % (tag, out["index"], case.get("fh_given", case["fh"])))
     if out["index"] != want_i:
-        return "labels%s: index %s expected %s (%s horizon %s, cutoff %s)" % (
-            tag, out["index"], want_i, case["fh_kind"], case["fh"], want_c[-1])
+        sub = "-after-update-predict" if case.get("up") else ""
+        return "labels%s%s: index %s expected %s (%s horizon %s, cutoff %s)" % (
+            sub, tag, out["index"], want_i, case["fh_kind"], case["fh"], want_c[-1])
     if any(b <= a for a, b in zip(out["index"], out["index"][1:])):
         return "increasing-time-order%s: %s" % (tag, out["index"])
     if any(v is None or isinstance(v, str) for v in out["vals"]):
@@ -519,7 +650,22 @@ def _check_run(case, out, shift, tag):
     return None
 
 
+COMPOSITE_MOVED = "after-update-predict-composite-members-keep-the-moved-cutoff: "
+
+
 def oracle(case, out):
+    f = _oracle(case, out)
+    # F-C03-6: in these three composites update_predict puts back only the composite's cutoff; what
+    # the following predict gets wrong (labels shifted to the members' cutoff; with an absolute
+    # horizon the members' steps, hence values or an in-sample error) is one and the same defect
+    if f and case.get("up") and case["fc"]["t"] in ("ensemble", "ttf", "multiplex") and (
+            f.startswith("labels-after-update-predict") or f.startswith("values-after-update-predict")
+            or (f.startswith("raised") and " at predict:" in f)):
+        return COMPOSITE_MOVED + f
+    return f
+
+
+def _oracle(case, out):
     f = _check_run(case, out["a"], 0, "")
     if f:
         return f
@@ -537,6 +683,15 @@ def oracle(case, out):
         if not _close(_fr(x), _fr(y)):
             return "shift-values-changed: step %d: %s on y, %s on y shifted by %d" % (
                 r, float(_fr(x)), float(_fr(y)), case["k"])
+    r = out.get("r")
+    if r is not None:
+        if "err" in r:
+            return "reference-run-raised: %s at %s: %s" % (r["err"], r["stage"], r["msg"][:100])
+        for step, x, y_ in zip(case["fh"], a["vals"], r["vals"]):
+            if not _close(_fr(x), _fr(y_)):
+                return ("values-after-update-predict: step %d: %s after fit; update_predict; predict, %s from "
+                        "a fresh forecaster told the same data without moving its cutoff" % (
+                            step, float(_fr(x)), float(_fr(y_))))
     c = out.get("c")
     if c is not None:
         tag = "-deseasonalized" if _deseasonalized(case["fc"]) else ""
@@ -557,6 +712,25 @@ def nontrivial(case, out):
 
 
 def shrink(case):
+    if case.get("fh_given") and not case.get("fh_dup"):
+        yield {k: v for k, v in case.items() if k != "fh_given"}       # the horizon written in order
+    if case.get("up"):
+        yield {k: v for k, v in case.items() if k != "up"}
+    for d in _shrink_raw(case):
+        if "fh_given" in d and sorted(set(d["fh_given"])) != d["fh"]:
+            g = [x for x in d["fh_given"] if x in d["fh"]]
+            if sorted(set(g)) == d["fh"]:
+                d["fh_given"] = g
+            else:
+                d.pop("fh_given")
+                d.pop("fh_dup", None)
+        if d.get("fh_dup") and len(d["fh_given"]) == len(set(d["fh_given"])):
+            d.pop("fh_dup")
+            d.pop("fh_given")
+        yield d
+
+
+def _shrink_raw(case):
     c = dict(case)
     fh = c["fh"]
     if len(fh) > 1 and c["fc"]["t"] != "stack":
@@ -634,14 +808,19 @@ def _crun(out):
 def _cprog(case, with_fh_modes=True):
     vals = _data(case)
     n = case["n"]
-    leaf = case["fc"]["t"] in ("naive", "poly")
+    # with an update_predict step the values of the leaves are not recomputed in Coq (the cutoff
+    # lies inside the remembered data; compared with a reference run instead)
+    leaf = case["fc"]["t"] in ("naive", "poly") and not case.get("up")
     q = (lambda v: "(Some %s)" % cq([v, 4])) if leaf else (lambda v: "None")
     train = clist([q(v) for v in vals[:n]])
     ups, pos = [], n
     for m in case["updates"]:
         ups.append("(%s, %s)" % (cz(case["t0"] + pos), clist([q(v) for v in vals[pos:pos + m]])))
         pos += m
-    total = len(vals)
+    total = pos
+    if case.get("up"):
+        # update_predict: a step that leaves the cutoff where it is (C03_cutoff_after_update_predict)
+        ups.append("(%s, %s)" % (cz(case["t0"] + pos), clist([])))
     if case["fh_kind"] == "abs":
         fh = "(Abs %s)" % czlist([case["t0"] + total - 1 + r for r in case["fh"]])
     else:
@@ -651,10 +830,13 @@ def _cprog(case, with_fh_modes=True):
     if not with_fh_modes:
         hf, hp = fh, ""
     return "%s {| t0 := %s; ys := %s |} %s %s %s %s" % (
-        _cleaf(case["fc"]), cz(case["t0"]), train, clist(ups), cbool(case["update_params"]), hf, hp)
+        _cleaf(case["fc"]) if leaf else "None", cz(case["t0"]), train, clist(ups),
+        cbool(case["update_params"]), hf, hp)
 
 
 def coq_case(case, out):
+    if case.get("fh_dup"):
+        return None            # rejected horizons are judged by the oracle only
     return "CRun %s %s %s %s" % (_cprog(case), _crun(out["a"]), cz(case["k"]), _crun(out["b"]))
 
 
@@ -678,6 +860,17 @@ def distribution(cases, results):
             d["updates:refit-before-any-horizon"] += 1
         if documented_rejection(c):
             d["naive:documented-rejection-at-fit"] += 1
+        if c.get("fh_given"):
+            g = c["fh_given"]
+            d["fh:written-out-of-order"] += 1
+            if g[0] == min(g) and g[-1] == max(g):
+                d["fh:out-of-order-smallest-first-largest-last"] += 1
+                if max(g) - min(g) + 1 == len(g):
+                    d["fh:out-of-order-contiguous-block-ends-in-place"] += 1
+        if c.get("fh_dup"):
+            d["fh:repeated-step"] += 1
+        if c.get("up"):
+            d["history:update_predict-before-predict"] += 1
         if "err" in o:
             d["raised:%s" % o.get("stage")] += 1
     return dict(d)
